@@ -705,7 +705,8 @@ class SsbGraphMinimizer:
         else:
             breaks_set = set(immediate_breaks)
 
-        return True, list(b for b in breaks_set if b not in continues), continues
+        # (in the order of the graph, not in that of the set: the hash of an edge depends on the address of its graph)
+        return True, sorted((b for b in breaks_set if b not in continues), key=lambda b: b.index), continues
 
     def remove_label_markers(self) -> None:
         logger.debug("Removing unnecessary labels...")
